@@ -381,6 +381,37 @@ def run(ck, ctx):
                   f"{sum(1 for e in r1.effects if e.kind == 'write')} in-place operations inspected")
     ck.guard(r207, "R20.7")
 
+    # ---------------------------------------------------------------- R20.8 one band for the field and the noise
+    def r208():
+        """History: the stage object is constructed, the band of the (mutable) configuration is changed, the stage is
+        called.  compute() / calculate_snr read the band when they run; the field bins follow it only if the parameter
+        tables are cut for the band that is configured at the time of the call - the object that holds them is built
+        during the call, not kept from construction."""
+        J = ctx.interp()
+        cfg = J.cfg_root()
+        st = J.new_state()
+        ci = J.cls(RADIO_MOD, "EASRadio")
+        obj = J.construct(ci, [cfg], {}, st)
+        n0 = len(J.g.nodes)
+        J.watch_calls |= {"RadioEFieldParams.__call__"}
+        log0 = len(J.call_log)
+        names = ("beta", "altDec", "lenDec", "theta", "pathLen", "showerEnergy")
+        r = J.run_method(obj, "__call__", [J.input(k, kind="array") for k in names], st=st)
+        if r.value is None:
+            raise AnalysisError("EASRadio.__call__ has no normal exit")
+        calls = [c for c in J.call_log[log0:] if c[0].qualname == "RadioEFieldParams.__call__"]
+        ck.floor("R20.8", len(calls), 1, "evaluations of the field parametrisation in the radio stage")
+        for c in calls:
+            ent = getattr(c[2], "entry", c[2])
+            me = ent.get([a.arg for a in c[0].node.args.args][0])
+            ck.ob("R20.8", "the field tables are cut for the band configured when the stage is called (the parameter "
+                  "object is built during the call), as the antenna and noise bins are", me is not None and me.id >= n0,
+                  me if me is not None else r.value, "EASRadio.__call__",
+                  "the parameter object was built by the constructor: a band set on the configuration afterwards moves "
+                  "the noise bins but not the field bins" if me is not None and me.id < n0 else "",
+                  construct="EASRadio: field parameter tables kept from construction")
+    ck.guard(r208, "R20.8")
+
 
 def _strip_phi_updates(n):
     while n.op == "Phi":
